@@ -140,6 +140,12 @@ def step (c : CS) (l : Line) : CS :=
       let c := branch c s!"restart/{repr k}/prevNone={prevNone}"
       let c := if l.nat "ret" ≠ 0 ∨ l.nat "rc" ≠ 0 then mism c s!"restart failed ret={l.nat "ret"} rc={l.nat "rc"}" else c
       { c with st := Nv.startup (powerCut c.st) k prevNone }
+  | "datouch" =>
+      -- a DA-protected authorization outside the NV model: correct password, so it succeeds, at most after one TPM_RC_RETRY
+      let c := branch c s!"datouch/rc={l.nat "rc"}/again={l.nat "again"}"
+      -- (or TPM_RC_LOCKOUT: each power cut after "DA used" counts as a failed try; the harness then resets the lockout)
+      if (l.get? "rc").isSome ∧ l.nat "rc" ≠ 0 ∧ ¬ ((l.nat "rc" = 0x922 ∨ l.nat "rc" = 0x921) ∧ l.nat "again" = 0) then
+        mism c s!"SPEC[da-touch] a correct DA-protected authorization was answered rc={l.nat "rc"} then {l.nat "again"}" else c
   | "resume" =>
       let c := ev c
       if l.nat "ret" ≠ 0 then mism c s!"SPEC[resume-failed] suspend/resume returned {l.nat "ret"}" else branch c "resume"
